@@ -367,8 +367,10 @@ func (n *Network) Deliver(seq int, keep bool) {
 		n.mu.Unlock()
 		if dst.cfg.Events != nil {
 			n.Spawn(name, func() {
-				dst.cfg.Events.NotifyLeave(p.Node)
+				// sequence number taken when the notification starts: a merge whose write lands after
+				// the notification's delete necessarily completes after this point
 				n.note(&n.leaveAt, dst.cfg.Name, p.Node.Name)
+				dst.cfg.Events.NotifyLeave(p.Node)
 			})
 		}
 	}
